@@ -824,7 +824,10 @@ def gen_broken(draw, t, ctx, env_for_oracle, depth=0, top=True):
         if k == "optional":
             r = gen_broken(draw, t["of"], ctx, env_for_oracle, depth, top)
             if r is not None:
-                obj = build(r[0], env_for_oracle)
+                try:
+                    obj = build(r[0], env_for_oracle)
+                except Exception:  # noqa: BLE001 - e.g. Self instances cannot be built before the class exists
+                    return None
                 if conforms(t, obj, env_for_oracle) is False:
                     return r
             return None
